@@ -783,6 +783,51 @@ func ruleC08KindGroups(c *Ctx) {
 		}
 		n++
 		ks := kf.At(call)
+		// the group runs for every instance of those kinds: no test of the instance's Go type decides whether it does
+		// (the string group's "not a json.Number" and the object group's "string-kinded keys" apart)
+		if what == "array keywords" || what == "object keywords" {
+			byType := ""
+			atoms := guardsLocal(call)
+			// a section entered through a short-circuit condition (A || B && C): every test of the cluster
+			for d := call.Block(); d != nil; d = d.Idom() {
+				if len(d.Preds) < 2 || d.Comment != "if.then" {
+					continue
+				}
+				allIf := true
+				for _, p := range d.Preds {
+					if _, isIf := p.Instrs[len(p.Instrs)-1].(*ssa.If); !isIf {
+						allIf = false
+					}
+				}
+				if !allIf {
+					continue
+				}
+				for _, p := range d.Preds {
+					ifi := p.Instrs[len(p.Instrs)-1].(*ssa.If)
+					atoms = append(atoms, guardAtom{Cond: ifi.Cond, Pol: p.Succs[0] == d, At: ifi})
+				}
+			}
+			for _, g := range atoms {
+				onType, keyKind := false, false
+				for _, x := range sliceWithReceivers(g.Cond, 24) {
+					cc, ok := x.(*ssa.Call)
+					if !ok {
+						continue
+					}
+					if core.CalleeKey(&cc.Call) == "reflect.Value.Type" && len(cc.Call.Args) > 0 && isSame(cc.Call.Args[0]) {
+						onType = true
+					}
+					if cc.Call.IsInvoke() && cc.Call.Method.Name() == "Key" {
+						keyKind = true
+					}
+				}
+				if onType && !keyKind {
+					byType = c.pos(g.At)
+				}
+			}
+			c.R.Check(byType == "", rule, fmt.Sprintf("%s@%s:whatever-the-go-type", strings.TrimPrefix(key, "reflect.Value."), what), c.pos(call), "no test of the instance's Go type decides whether the "+what+" run",
+				"whether the "+what+" run depends on a test of the instance's Go type (at "+byType+"), not only on its kind: an instance of the excluded type (a []byte, say, which the classifier still calls an array) skips items, contains, uniqueItems, minItems and unevaluatedItems altogether while the same JSON decoded into []any does not")
+		}
 		// (inside a helper, a branch can be dead for every kind the evaluator calls it with: an empty set is fine there)
 		c.R.Check(ks.SubsetOf(allowed) && (ks != 0 || call.Parent() != m.E), rule, fmt.Sprintf("%s@%s", strings.TrimPrefix(key, "reflect.Value."), what), c.pos(call), fmt.Sprintf("%s run only for instance kinds %s", what, ks),
 			fmt.Sprintf("the %s access the instance with %s while its kind can be %s (expected a subset of %s)", what, key, ks, allowed))
@@ -2624,5 +2669,30 @@ func (c *Ctx) globalKindTable(g *ssa.Global) map[int]string {
 			}
 		}
 	})
+	return out
+}
+
+// sliceWithReceivers: backSlice that also follows the receiver of interface method calls (v.Type().Elem().Kind()).
+func sliceWithReceivers(v ssa.Value, limit int) []ssa.Value {
+	seen := map[ssa.Value]bool{}
+	var out []ssa.Value
+	var walk func(v ssa.Value)
+	walk = func(v ssa.Value) {
+		if v == nil || seen[v] || len(out) >= limit {
+			return
+		}
+		seen[v] = true
+		out = append(out, v)
+		for _, x := range backSlice(v, 12) {
+			if !seen[x] {
+				seen[x] = true
+				out = append(out, x)
+			}
+			if cc, ok := x.(*ssa.Call); ok && cc.Call.IsInvoke() {
+				walk(cc.Call.Value)
+			}
+		}
+	}
+	walk(v)
 	return out
 }
